@@ -194,6 +194,12 @@ func scenLife(e *Env) func() {
 	p := genLifePlan(e)
 	e.Sample = p
 	e.Cfg.Holds, e.Cfg.HoldMax = Pick(e, 0, 0, 1, 3), 300*time.Millisecond
+	if focus := e.Chance(50); focus && p.ShutdownMs >= 0 && p.Mode == "serve" {
+		// the slow-task faults go to whatever runs at the very instant Shutdown starts: the
+		// windows between a worker's, the accept loop's and Shutdown's own steps get stretched
+		e.Cfg.Holds, e.Cfg.Strategy = 3, 0
+		e.Cfg.HoldFocusAt, e.Cfg.HoldFocusFor = 2*time.Second+ms(p.ShutdownMs), Pick(e, 0, 0, time.Millisecond, 50*time.Millisecond)
+	}
 	e.Cfg.PoolAdversarial = e.Chance(30)
 	r := &lifeRun{e: e, p: p, recs: map[string]*lifeConnRec{}, byPtr: map[net.Conn]*lifeConnRec{}, shutdownStart: -1, shutdownRet: -1}
 	e.Cfg.Monitor = r.monitor
